@@ -4,7 +4,8 @@
    consulted; the invariant is that every memo entry is exact (or provisional for a stack state). *)
 From Coq Require Import List Arith Bool Lia Relations.
 From PV Require Import Typegraph.Graph Typegraph.Solver Typegraph.Spec Typegraph.SetLemmas
-  Typegraph.RfgProofs Typegraph.PathProofs Typegraph.SearchProofs Typegraph.SolverProofs.
+  Typegraph.RfgProofs Typegraph.PathProofs Typegraph.SearchProofs Typegraph.SolverProofs
+  Typegraph.ResolveMono.
 Import ListNotations.
 
 Section Exact.
@@ -193,4 +194,62 @@ Theorem search_exact_acyclic_lemma : forall g fuel s st' r,
 Proof.
   intros g fuel s st' r [rank Hrank] Hnc Hss H.
   destruct (top_exact g rank Hrank Hnc _ _ _ _ _ H Hss (st_okE_empty g)) as [_ A]. exact A.
+Qed.
+
+(* ---- with monotonicity of Expl the short-circuit disappears: Solve is exact ---- *)
+Lemma solve_exact_full : forall g rank, ranked g rank -> no_conditions g = true ->
+  forall fuel st attrs n st' r,
+  solve fuel g st attrs n = Some (st', r) -> st_okE g st ->
+  st_okE g st' /\ (r = true <-> Expl g n (sof_list attrs)).
+Proof.
+  intros g rank Hrank Hnc fuel st attrs n st' r H Hok.
+  destruct (solve_exact g rank Hrank Hnc _ _ _ _ _ _ H Hok) as [Hok' [Ht Hf]].
+  split; [exact Hok'|]. destruct r.
+  - split; [exact Ht | reflexivity].
+  - split; [discriminate|]. intros He. exfalso.
+    destruct (Hf eq_refl) as [Hn|[_ [a [Ha Hn]]]]; [apply Hn; exact He|].
+    apply Hn. eapply Expl_mono; [exact He | reflexivity|].
+    intros b [Hb|[]]. subst. apply In_sof_list. exact Ha.
+Qed.
+
+Theorem solver_exact_acyclic_lemma : forall g fuel qs st' answers,
+  acyclic g -> no_conditions g = true ->
+  run_queries fuel g sstate_empty qs = Some (st', answers) ->
+  Forall2 (fun q a => a = true <-> Expl g (snd q) (sof_list (fst q))) qs answers.
+Proof.
+  intros g fuel qs st' answers [rank Hrank] Hnc.
+  assert (Hgen : forall qs st st' answers, run_queries fuel g st qs = Some (st', answers) ->
+                   st_okE g st -> Forall2 (fun q a => a = true <-> Expl g (snd q) (sof_list (fst q))) qs answers).
+  { induction qs0 as [|[attrs n] rest IH]; intros st st0 ans H Hok.
+    - simpl in H. inversion H; subst. constructor.
+    - simpl in H. destruct (solve fuel g st attrs n) as [[st1 a]|] eqn:E; [|discriminate].
+      destruct (run_queries fuel g st1 rest) as [[st2 ans2]|] eqn:E2; [|discriminate].
+      inversion H; subst. destruct (solve_exact_full g rank Hrank Hnc _ _ _ _ _ _ E Hok) as [Hok1 Ha].
+      constructor; [exact Ha | eapply IH; eauto]. }
+  intros H. eapply Hgen; [exact H | apply st_okE_empty].
+Qed.
+
+Lemma Forall2_combine_In : forall {A B} (P : A -> B -> Prop) l1 l2 x y,
+  Forall2 P l1 l2 -> In (x, y) (combine l1 l2) -> P x y.
+Proof.
+  intros A B P l1 l2 x y H. induction H; simpl; intros Hin; [destruct Hin|].
+  destruct Hin as [Hin|Hin]; [inversion Hin; subst; assumption | auto].
+Qed.
+
+(* clause (iv) on acyclic condition-free graphs: within one solver session, every subset of an
+   accepted combination (asked before or after it) is accepted *)
+Theorem accepted_subset_closed_acyclic_lemma : forall g fuel qs st' answers,
+  acyclic g -> no_conditions g = true ->
+  run_queries fuel g sstate_empty qs = Some (st', answers) ->
+  forall q1 q2 a2,
+    In (q1, true) (combine qs answers) -> In (q2, a2) (combine qs answers) ->
+    snd q1 = snd q2 -> incl (fst q2) (fst q1) -> a2 = true.
+Proof.
+  intros g fuel qs st' answers Ha Hnc H q1 q2 a2 H1 H2 Hn Hincl.
+  pose proof (solver_exact_acyclic_lemma g fuel qs st' answers Ha Hnc H) as HF.
+  pose proof (Forall2_combine_In _ _ _ _ _ HF H1) as E1.
+  pose proof (Forall2_combine_In _ _ _ _ _ HF H2) as E2. cbv beta in E1, E2.
+  destruct q1 as [s1 n1], q2 as [s2 n2]. simpl in *. subst n2.
+  apply E2. eapply Expl_mono; [apply E1; reflexivity | apply SS_sof_list|].
+  intros b Hb. rewrite In_sof_list in Hb. rewrite In_sof_list. apply Hincl. exact Hb.
 Qed.
